@@ -2,6 +2,7 @@ package harness
 
 import (
 	"context"
+	"encoding/hex"
 	"encoding/json"
 	"errors"
 	"fmt"
@@ -63,6 +64,8 @@ func c15Config(which string) cfggen.Config {
 	c.Users = []cfggen.User{
 		{Name: "alice", Scopes: []string{"s1", "s2"}, Commands: cmds, Services: svcs, Authenticator: cfggen.BcryptAuth("pw-alpha"), Accounter: file},
 		{Name: "bob", Scopes: []string{"s1", "s2"}, Groups: []cfggen.Group{grp}},
+		// no hash option: the credential comes from the keychain on every login
+		{Name: "kc", Scopes: []string{"s1", "s2"}, Authenticator: &cfggen.Authenticator{Type: cfggen.AuthnBcrypt, Options: map[string]string{"key": "kc", "group": "g"}}},
 	}
 	return c
 }
@@ -74,13 +77,13 @@ func genC15(t *rapid.T) c15Case {
 		cl := c15Client{Mux: rapid.Bool().Draw(t, "mux"), Churn: rapid.IntRange(0, 2).Draw(t, "churn")}
 		k := rapid.IntRange(1, 6).Draw(t, "nops")
 		for j := 0; j < k; j++ {
-			cl.Ops = append(cl.Ops, rapid.SampledFrom([]string{"cmd", "cmd", "cmd", "session", "acct", "pap", "ascii"}).Draw(t, "op"))
+			cl.Ops = append(cl.Ops, rapid.SampledFrom([]string{"cmd", "cmd", "cmd", "session", "acct", "pap", "ascii", "pap-kc", "pap-kc"}).Draw(t, "op"))
 		}
 		c.Clients = append(c.Clients, cl)
 	}
 	// make the non-trivial rule hold by construction: two clients that both authorise commands of alice
-	c.Clients[0].Ops = append(c.Clients[0].Ops, "cmd", "cmd")
-	c.Clients[1].Ops = append(c.Clients[1].Ops, "cmd", "cmd")
+	c.Clients[0].Ops = append([]string{"pap-kc"}, append(c.Clients[0].Ops, "cmd", "cmd")...)
+	c.Clients[1].Ops = append([]string{"pap-kc"}, append(c.Clients[1].Ops, "cmd", "cmd")...)
 	nr := rapid.IntRange(1, 4).Draw(t, "nreloads")
 	for i := 0; i < nr; i++ {
 		c.Reloads = append(c.Reloads, rapid.SampledFrom([]string{"A", "B", "B"}).Draw(t, "reload"))
@@ -229,7 +232,9 @@ func runC15(t failer, c c15Case) c15Result {
 			docs[w] = c15Config(w).YAML()
 		}
 	}
-	st, err := refsrv.New(docs["A"], refsrv.Options{Logger: refsrv.NopLogger{}, Sink: refsrv.NopSink{}, Format: c.Format})
+	kcHash, _ := hex.DecodeString(cfggen.Hashes["pw-bravo"])
+	st, err := refsrv.New(docs["A"], refsrv.Options{Logger: refsrv.NopLogger{}, Sink: refsrv.NopSink{}, Format: c.Format,
+		Keychain: refsrv.MapKeychain{"kc": kcHash}}) // a read-only map: lookups take no lock
 	if err != nil {
 		t.Fatalf("HARNESS-BUG: %v", err)
 	}
@@ -269,6 +274,9 @@ func runC15(t failer, c c15Case) c15Result {
 				case "pap":
 					typ, minor = 1, 1
 					body = model.AuthenStart{Action: 1, Priv: 1, AType: 2, Service: 1, User: b("alice"), Port: b("tty0"), RemAddr: b("r"), Data: b("pw-alpha")}.Encode()
+				case "pap-kc":
+					typ, minor = 1, 1
+					body = model.AuthenStart{Action: 1, Priv: 1, AType: 2, Service: 1, User: b("kc"), Port: b("tty0"), RemAddr: b("r"), Data: b("pw-bravo")}.Encode()
 				case "ascii":
 					typ = 1
 					body = model.AuthenStart{Action: 1, Priv: 1, AType: 1, Service: 1, User: b("bob"), Port: b("tty0"), RemAddr: b("r")}.Encode()
